@@ -579,8 +579,13 @@ fn gen_exhaustive(emit: &mut dyn FnMut(Value)) {
     }
 }
 
-fn gen(args: &Args, emit: &mut dyn FnMut(Value)) {
+fn gen(args: &Args, emit0: &mut dyn FnMut(Value)) {
     let mut rng = Prng::new(args.seed);
+    // sub-second bounds that the model cannot tell apart are written alike (router_gen::fix_frac)
+    let emit = &mut |mut v: Value| {
+        fix_case(&mut v);
+        emit0(v)
+    };
     if args.tier == "thorough" {
         gen_exhaustive(emit);
     }
